@@ -523,10 +523,22 @@ def denote(w, gi, lh, numbering, st, strict=False):
         if r not in g:
             raise NoOpinion
         return name(g, r)
+    if k == "name":
+        # prefix-less specifiers: a revno first, then a tag, then a revision id (documented order)
+        import re
+        nm = st[1]
+        if re.match(r"^(?:(\d+(\.\d+)*)|-\d+)(:.*)?$", nm) or ":" in nm:
+            raise NoOpinion
+        if nm in w["tags"]:
+            v = w["tags"][nm]
+            if v.startswith("r") and v[1:].isdigit() and int(v[1:]) in g:
+                return v.encode()
+            raise Undefined      # both entry points go through in_history, which needs the revision
+        if nm.startswith("r") and nm[1:].isdigit() and int(nm[1:]) in g and nm == "r%d" % int(nm[1:]):
+            return nm.encode()
+        raise NoOpinion
     if k in ("before", "mainline"):
         x = denote(w, gi, lh, numbering, st[1])
-        if st[1][0] == "name":
-            raise NoOpinion
         if x == NULL:
             if k == "before":
                 raise Undefined
